@@ -184,7 +184,7 @@ func (l *Lab) hook(point string, node uint64) {
 	}
 	if l.opt.RecordEvents {
 		switch point {
-		case "stab.done", "fix.done", "cp.done", "stab.read", "kv.found":
+		case "stab.done", "fix.done", "cp.done", "stab.read", "stab.update", "kv.found":
 		default:
 			l.evMu.Lock()
 			l.events = append(l.events, Event{Seq: l.evSeq.Add(1), T: mono() / 1000, Point: point, Node: node})
